@@ -478,4 +478,36 @@ theorem spinFlip_eq_det (A : Matrix (Fin 2) (Fin 2) ℂ) :
   simp [Fintype.sum_prod_type, Fin.sum_univ_two, Matrix.kroneckerMap_apply]
   ring_nf
 
+/-! ## the exact rank oracle is Mathlib's rank (correctness of the elimination) -/
+
+/-- **The exact rank routine is correct.**  For every size and every matrix over `ℚ[i]`, the executable rank `rankQ n m A`
+    (Gaussian elimination, `Toq/Core/Rank.lean`) equals Mathlib's `Matrix.rank` of the complex `n × m` matrix that `A` denotes. -/
+theorem rankQ_eq_rank (n m : Nat) (A : Nat → Nat → QI) :
+    rankQ n m A = (toM n m fun i j => (A i j).toC).rank :=
+  Toq.Rank.rankFn_eq_rank n m A
+
+/-- **`schmidt_rank` (vector branch) returns the Schmidt rank.**  The mirror of the fixed code, `matrix_rank(np.reshape(rho, dim))`
+    with the exact rank, equals the rank of the amplitude matrix `A[a,b] = ψ[a·dB + b]` over `ℂ`, for all local dimensions. -/
+theorem schmidtRankVec_eq_rank (dA dB : Nat) (ψ : Nat → QI) :
+    schmidtRankVec dA dB ψ = (toM dA dB (ampMat dB fun k => (ψ k).toC)).rank := by
+  rw [schmidtRankVec_eq_spec]
+  exact rankQ_eq_rank dA dB (ampMat dB ψ)
+
+/-- **`schmidt_rank` (operator branch) returns the operator Schmidt rank.**  The mirror of `_operator_schmidt_rank` with the exact
+    rank equals the rank over `ℂ` of the realigned matrix `R[(a,a'),(b,b')] = ρ[(a,b),(a',b')]`, for all (also unequal) local dimensions. -/
+theorem schmidtRankOp_eq_rank (dA dB : Nat) (ρ : Nat → Nat → QI) (hA : 0 < dA) (hB : 0 < dB) :
+    schmidtRankOp dA dB ρ = (toM (dA * dA) (dB * dB) (realignAmp dA dB fun i j => (ρ i j).toC)).rank := by
+  rw [schmidtRankOp_eq_spec dA dB ρ hA hB]
+  exact rankQ_eq_rank _ _ (realignAmp dA dB ρ)
+
+/-- **The two exact oracles agree.**  Whenever the certificate checker accepts a certificate of rank `r` for `A`, the elimination
+    returns `r` on `A` (both are the rank of `A.toM`). -/
+theorem rankE_eq_of_rankCert {n m r : Nat} (A : EMat n m) (B : EMat n r) (C : EMat r m) (L : EMat r n) (R : EMat m r)
+    (h : rankCert A B C L R = true) : Toq.Rank.rankE A = r := by
+  rw [Toq.Rank.rankE_eq_rank]; exact rankCert_sound A B C L R h
+
+/-- the routine on a concrete complex matrix: `[[1, i, 0], [i, -1, 0], [0, 0, 2]]` has rank 2 (the second row is `i` times the first) -/
+example : rankQ 3 3 (fun i j => ([[⟨1, 0⟩, ⟨0, 1⟩, 0], [⟨0, 1⟩, ⟨-1, 0⟩, 0], [0, 0, ⟨2, 0⟩]] : List (List QI)).getD i [] |>.getD j 0) = 2 := by
+  decide +kernel
+
 end Toq.C14
